@@ -325,6 +325,32 @@ def check(chk):
     chk.ob("DOM-20", "a tilt posts the tilt event", ok, f.where(), construct=f.ident, text="tilt event")
     from sa.helpers import game_ended_only_through_its_api
     game_ended_only_through_its_api(chk, "DOM-20")
+    # a slam tilt ends the game whatever else is going on: with a game, every path of slam_tilt() marks the game slam tilted (also while a tilt is
+    # draining or the game is ending) and goes on to tilt(); the game loop plays no extra ball on a slam tilted machine - otherwise the
+    # next ball_started writes the flipper and autofire rules back after the slam tilt
+    from sa.cfg import canon_set as _cs10, canon_fact as _cf10
+    from sa.helpers import positive as _pos10
+    stf = repo.func("mpf/modes/tilt/code/tilt.py", "Tilt.slam_tilt")
+    chk.analysed(stf)
+    scfg_ = stf.cfg()
+    marks_ = [n for n in scfg_.nodes if n.kind == "stmt" and isinstance(n.ast, ast.Assign) and src(n.ast.targets[0]) == "self.machine.game.slam_tilted" and src(n.ast.value) == "True"]
+    chk.need(marks_, "DOM-20", "Tilt.slam_tilt marks the game slam tilted", stf)
+    for n in marks_:
+        got = _pos10(set(_cs10(scfg_.guards_at(n.id))))
+        chk.ob("DOM-20", "a slam tilt marks the game slam tilted whenever there is a game (also during a tilt or while the game is ending)", got == _pos10({_cf10("self.machine.game", True)}),
+               stf.where(n.ast), detail="marked under %s" % sorted(got), construct=stf.ident, text="slam tilt mark condition")
+        tl = [x.id for x, c in scfg_.calls_named("tilt") if dotted(c.func.value) == "self"]
+        w_ = scfg_.must_pass(n.id, tl) if tl else [n.id]
+        chk.ob("DOM-20", "a slam tilt goes on to tilt the machine", w_ is None, stf.where(n.ast), construct=stf.ident, text="slam tilt tilts")
+    grun = repo.func("mpf/modes/game/code/game.py", "Game._run")
+    chk.analysed(grun)
+    wl_ = [x for x in ast.walk(grun.node) if isinstance(x, ast.While) and any(isinstance(c, ast.Call) and call_attr(c) == "_award_extra_ball" for st in x.body for c in ast.walk(st))]
+    chk.need(wl_, "DOM-20", "the game loop plays the player's extra balls", grun)
+    wl_ = [min(wl_, key=lambda w_: len(list(ast.walk(w_))))]
+    t_ = wl_[0].test
+    conj = [src(v).strip("()") for v in t_.values] if isinstance(t_, ast.BoolOp) and isinstance(t_.op, ast.And) else [src(t_).strip("()")]
+    chk.ob("DOM-20", "no extra ball is played on a slam tilted machine", "not self.slam_tilted" in conj, grun.where(wl_[0]), detail="loop condition: " + src(t_),
+           construct=grun.ident, text="extra ball loop on a slam tilted machine")
     # the tilt switches are armed by every start of the tilt mode: what mode_stop takes away (service mode stops every mode) mode_start puts back
     TL_ = "mpf/modes/tilt/code/tilt.py"
     tcls = repo.cls(TL_, "Tilt")
@@ -444,6 +470,8 @@ def battery():
         M("flippers on at game start", Y, "    enable_events: event_handler|event_handler:ms|ball_started", "    enable_events: event_handler|event_handler:ms|ball_started, game_started", "TABLE-1", nth=1),
         M("spec key without handler", Y, "    sw_flip_events: event_handler|event_handler:ms|None", "    sw_flip_events: event_handler|event_handler:ms|None\n    sw_hold_events: event_handler|event_handler:ms|None", "TABLE-1"),
         M("enable outranks disable", FL, "    @event_handler(10)\n    def event_disable", "    @event_handler(0)\n    def event_disable", "TABLE-1"),
+        M("slam tilt ignored during a tilt", "mpf/modes/tilt/code/tilt.py", "        if not self.machine.game:\n            return\n\n        self.machine.game.slam_tilted = True", "        if not self.machine.game or self.machine.game.tilted:\n            return\n\n        self.machine.game.slam_tilted = True", "DOM-20"),
+        M("extra balls played after a slam tilt", "mpf/modes/game/code/game.py", "            while self.player.extra_balls and not self.slam_tilted:", "            while self.player.extra_balls and not self.ending:", "DOM-20"),
         M("tilt switches armed once at boot", "mpf/modes/tilt/code/tilt.py", "    def mode_start(self, **kwargs):\n        \"\"\"Start mode.\"\"\"\n        self._register_switch_handlers()\n", "        self._register_switch_handlers()\n\n    def mode_start(self, **kwargs):\n        \"\"\"Start mode.\"\"\"\n", "DOM-20"),
         M("slam tilt switch left registered", "mpf/modes/tilt/code/tilt.py", "            self.machine.switch_controller.remove_switch_handler(\n                switch_name=switch.name,\n                callback=self.slam_tilt)", "            pass", "DOM-20"),
         M("tilt without ball end", "mpf/modes/tilt/code/tilt.py", "        self.machine.game.end_ball()\n\n    def _tilted_ball_drain", "\n    def _tilted_ball_drain", "DOM-20"),
